@@ -336,9 +336,13 @@ def execute(st, ctx):
                         out.probes["tool_abandoned"] = 1
                         del it
                         await settle()
+                        # whether the finalisation of an abandoned tool ends the handle it was given is the tool's
+                        # business (a generator-based tool does, a class-based one need not): the owner of the handle
+                        # closes it now, what matters is that the underlying iterator stays open through all of this
+                        await b.aclose()
+                        model["open"] = False
+                        model["closed"] = True
                         if started:
-                            model["open"] = False
-                            model["closed"] = True
                             out.probes["closed_by_gc"] = 1
                 else:
                     # the tool ended by itself (exhaustion or an error of its own): it closed its input
